@@ -82,21 +82,30 @@ Proof. intros ops s o d n HI. apply run_op_deposit. apply run_inv. exact HI. Qed
 Print Assumptions C09_restricted_marker_needs_deposit.
 
 (** Non-vacuity.  Users 1, 2; grantee 4; stranger 5; admin 6; restricted marker 8 (admin has withdraw
-    and deposit).  User 1 writes scope 1 with itself as value owner; the stranger's attempt to take it
-    is rejected; the grantee moves it into the marker with 1's authz grant and the admin's deposit
-    right; the admin's signature (withdraw access) moves it out to user 2; user 2 sends it on to 1 by
-    a plain bank send; 1 deletes the scope and the token is burnt. *)
+    and deposit); roles 5 = OWNER, 3 = INVESTOR.  User 1 writes scope 1 with itself as value owner; the
+    stranger's attempt to take it is rejected; the grantee moves it into the marker with 1's authz grant
+    and the admin's deposit right; the admin's signature (withdraw access) moves it out to user 2; user
+    2 sends it on to 1 by a plain bank send; 1 deletes the scope and the token is burnt.  Scope 2 has
+    party rollup on, owner 1 required and investor 2 OPTIONAL, value owner 2: the required party alone
+    can neither delete it nor move the token; with 2's signature the deletion goes through. *)
 Example C09_witness :
   let mk := {| mk_restricted := true; mk_withdraw := [6%N]; mk_deposit := [6%N] |} in
-  let s0 := init [1%N] [(8%N, mk)] [] [0%N] in
-  let s1 := run s0 [OWrite [1%N] 1%N [1%N] 1%N 0%N (Some 1%N)] in
+  let s0 := init [(1%N, [5%N])] [(8%N, mk)] [] [0%N] in
+  let ps := [(1%N, 5%N, false)] in
+  let s1 := run s0 [OWrite [1%N] 1%N ps 1%N [] false (Some 1%N)] in
   let s2 := run s1 [OUpdate [5%N] [1%N] 5%N] in
   let s3 := run s2 [OGrant 1%N 4%N KUpdate; OUpdate [4%N; 6%N] [1%N] 8%N] in
-  let s4 := run s3 [OWrite [6%N] 1%N [1%N] 1%N 0%N (Some 2%N)] in
+  let s4 := run s3 [OWrite [6%N] 1%N ps 1%N [] false (Some 2%N)] in
   let s5 := run s4 [OSend 2%N 1%N 1%N 1] in
   let s6 := run s5 [ODelete [1%N] 1%N] in
+  let ps2 := [(1%N, 5%N, false); (2%N, 3%N, true)] in
+  let t1 := run s6 [OWrite [1%N] 2%N ps2 1%N [] true (Some 2%N)] in
+  let t2 := run t1 [ODelete [1%N] 2%N; OWrite [1%N] 2%N ps2 1%N [7%N] true (Some 1%N); OAddData [1%N] 2%N [9%N]] in
+  let t3 := run t2 [ODelete [1%N; 2%N] 2%N] in
   holder s1 1%N = Some 1%N /\ sup s1 1%N = 1 /\ holder s2 1%N = Some 1%N /\
   holder s3 1%N = Some 8%N /\ holder s4 1%N = Some 2%N /\ holder s5 1%N = Some 1%N /\
   holder s6 1%N = None /\ sup s6 1%N = 0 /\ scope_of s6 1%N = None /\
-  snd (step s3 (OWrite [5%N] 1%N [1%N] 1%N 0%N (Some 5%N))) = false.
-Proof. vm_compute. repeat split; reflexivity. Qed.
+  snd (step s3 (OWrite [5%N] 1%N ps 1%N [] false (Some 5%N))) = false /\
+  holder t1 2%N = Some 2%N /\ holder t2 2%N = Some 2%N /\ scope_of t2 2%N <> None /\
+  holder t3 2%N = None /\ sup t3 2%N = 0.
+Proof. vm_compute. repeat split; try reflexivity. discriminate. Qed.
